@@ -507,6 +507,9 @@ func (g *gen) name() string {
 	if g.findings == 2 && r.Chance(1, 3) {
 		n += hx.Pick(r, []string{"/", "/a=", "/=v", "/z="})
 	}
+	if r.Chance(1, 120) {
+		return hx.Pick(r, []string{"-4", "-8", "-16", "-+5", "-x"}) // the name is only a -N suffix: dash at index 0
+	}
 	if r.Chance(1, 40) {
 		n += "/k=1" // clashes when k is also file configuration
 	}
@@ -680,6 +683,23 @@ func (g *gen) query(c *histCase, ids []string, tags map[string]bool) string {
 			}
 		}
 		tags["triple"] = true
+		return strings.Join(ws, " ")
+	}
+	if r.Chance(1, 7) {
+		// three or four range terms on one key: a range narrowed (or not) from either side
+		k := hx.Pick(r, []string{"k", "pkg", "a", "name", "gomaxprocs"})
+		pool := []string{"1", "10", "2", "a", "ab", "abc", "b", "Bar", "F", "Foo", "4", "8", "16", "0", "~"}
+		ws := []string{k + ">" + hx.Pick(r, pool), k + "<" + hx.Pick(r, pool)}
+		for n := 1 + r.Intn(2); n > 0; n-- {
+			ws = append(ws, k+hx.Pick(r, []string{">", "<"})+hx.Pick(r, pool))
+		}
+		if r.Chance(1, 3) {
+			for i := len(ws) - 1; i > 0; i-- {
+				j := r.Intn(i + 1)
+				ws[i], ws[j] = ws[j], ws[i]
+			}
+		}
+		tags["ranges"] = true
 		return strings.Join(ws, " ")
 	}
 	var words []string
@@ -931,6 +951,21 @@ func main() {
 		}
 		c.qs = []string{"upload:20260101.1000", "k:b upload>20260101.99"}
 		c.ls = []listReq{{"", 0}, {"", 1001}, {"", 999}, {"name>", 0}, {"k:a", 0}, {"k:b", 0}, {"", -1}}
+		emit(c.encode(next()))
+	}
+	if shard == 0 && os.Getenv("VERIF_C19_BIG") != "0" {
+		// bufio.Scanner gives up on a line of 64 KiB or more: the Reader reports the error and the
+		// whole upload is rejected (also when earlier lines of the file were fine)
+		c := &histCase{tags: []string{"longline"}}
+		long := strings.Repeat("x", 65536)
+		c.ups = []uploadIn{
+			{day: "20260101", files: []fileIn{{"a.txt", "k: a\nBenchmarkF 1 1 ns/op\n" + long + "\nBenchmarkF 1 2 ns/op\n"}}},
+			{day: "20260101", files: []fileIn{{"b.txt", "BenchmarkG 1 3 ns/op " + strings.Repeat("y", 70000) + "\n"}}},
+			{day: "20260101", files: []fileIn{{"c.txt", "k: " + strings.Repeat("v", 3000) + "\nBenchmarkF 1 4 ns/op\n"}, {"d.txt", "BenchmarkF 1 5 ns/op\nnote: " + long}}},
+			{day: "20260101", files: []fileIn{{"e.txt", "k: a\nBenchmarkF 1 6 ns/op\n"}}},
+		}
+		c.qs = []string{"name:F", "k:a", "upload>2026"}
+		c.ls = []listReq{{"", 0}, {"name:F", 0}}
 		emit(c.encode(next()))
 	}
 	r := hx.NewRand(19 + uint64(shard)*1000003)
